@@ -36,13 +36,13 @@ Fixpoint noaddw (e : expr) : bool :=      (* noaddb without the "no doubled pare
   | EId _ | ELit _ _ => true
   | EBin op x y => tight (prec op) x && tight (prec op + 1) y && noaddw x && noaddw y
   | EUn _ x => tight UnaryPrec x && noaddw x
-  | EStar x => noaddw x
+  | EStar x => tight UnaryPrec x && noaddw x
   | EPar x => noaddw x
   | ECall f args _ => tight HighestPrec f && noaddw f && forallb noaddw args
   | EIdx x i => tight HighestPrec x && noaddw x && noaddw i
   | ESel x _ => tight HighestPrec x && noaddw x
-  | EEw _ x => noaddw x
-  | EEwd _ x d => noaddw x && noaddw d
+  | EEw _ x => tight HighestPrec x && noaddw x
+  | EEwd _ x d => tight HighestPrec x && tight UnaryPrec d && noaddw x && noaddw d
   | ELam _ _ rhs _ => forallb noaddw rhs
   end.
 Definition shp (e : expr) : bool := validb e && posokb e && noaddw e.
@@ -53,7 +53,7 @@ Lemma shp_intro e : validb e = true -> posokb e = true -> noaddw e = true -> shp
 Proof. unfold shp. intros -> -> ->. reflexivity. Qed.
 
 Lemma tlev_le_plev e : tlev e <= plev e.
-Proof. destruct e; cbn [tlev plev]; zl. Qed.
+Proof. rewrite (tlev_eq_plev e). lia. Qed.
 
 Lemma lev_ok p x : p <= tlev x -> tight p x = true /\ ok_at p p x = true.
 Proof.
@@ -87,8 +87,7 @@ Proof.
 Qed.
 Lemma shp_star x : shp x = true -> UnaryPrec <= tlev x -> shp (EStar x) = true.
 Proof.
-  intros X L. shp_split. apply shp_intro; cbn [validb posokb noaddw]; andbs.
-  now apply lev_ok0.
+  intros X L. shp_split. destruct (lev_ok _ _ L) as [T1 O1]. apply shp_intro; cbn [validb posokb noaddw]; andbs.
 Qed.
 Lemma shp_par x : shp x = true -> shp (EPar x) = true.
 Proof. intros X. shp_split. apply shp_intro; cbn [validb posokb noaddw]; auto. Qed.
@@ -118,14 +117,13 @@ Proof.
 Qed.
 Lemma shp_ew t x : ew_ok t = true -> shp x = true -> 8 <= tlev x -> shp (EEw t x) = true.
 Proof.
-  intros T X L. shp_split. apply shp_intro; cbn [validb posokb noaddw]; andbs.
-  now apply lev_ok0.
+  intros T X L. shp_split. destruct (lev_ok78 _ L) as [T1 O1]. apply shp_intro; cbn [validb posokb noaddw]; andbs.
 Qed.
 Lemma shp_ewd t x d : ew_ok t = true -> shp x = true -> 8 <= tlev x -> shp d = true -> UnaryPrec <= tlev d ->
   shp (EEwd t x d) = true.
 Proof.
-  intros T X L D Ld. shp_split. apply shp_intro; cbn [validb posokb noaddw]; andbs;
-    now apply lev_ok0.
+  intros T X L D Ld. shp_split. destruct (lev_ok78 _ L) as [T1 O1]. destruct (lev_ok _ _ Ld) as [T2 O2].
+  apply shp_intro; cbn [validb posokb noaddw]; andbs.
 Qed.
 Lemma shp_lam lhs lp rhs rp : (lp || (length lhs <=? 1)%nat) = true -> rhs <> [] -> (rp || (length rhs =? 1)%nat) = true ->
   forallb shp rhs = true -> (rp || negb (match rhs with a :: _ => starts_lp a | [] => false end)) = true ->
@@ -140,8 +138,8 @@ Lemma shp_ew_inv t x : shp (EEw t x) = true -> ew_ok t = true /\ shp x = true /\
 Proof.
   intros H. apply shp_inv in H as (V & K & N). cbn [validb posokb noaddw] in *. bsplit.
   repeat split; auto; [apply shp_intro; auto|].
-  match goal with H : ok_at LowestPrec 8 x = true |- _ => apply ok_at_inv in H as [H|[_ H]]; auto end.
-  pose proof (plev_pos x ltac:(assumption)). apply Z.ltb_lt in H. zl.
+  match goal with Ho : ok_at HighestPrec 8 x = true, Ht : tight HighestPrec x = true |- _ =>
+    apply ok_at_inv in Ho as [Ho|[_ Ho]]; auto; unfold tight in Ht; rewrite Ho in Ht; discriminate Ht end.
 Qed.
 
 Lemma plev8 x : 8 <= tlev x -> (plev x <? HighestPrec) = false.
@@ -167,7 +165,7 @@ Definition lvl (s : st) : Z :=
   | SExpr | SLam _ => 0
   | SBinary p1 _ | SBinLoop p1 _ => p1
   | SUnary _ => 6
-  | SErrWrap _ => 7
+  | SErrWrap _ => 6
   | _ => 8
   end.
 
@@ -307,8 +305,8 @@ Lemma inv_unary atp ts v r : step rec (SUnary atp) ts = ROk v r -> post (SUnary 
 Proof.
   intros H. cbn [step] in H.
   assert (Fall : rec (SErrWrap atp) ts = ROk v r -> post (SUnary atp) ts v r).
-  { intros E. pose proof (HI (SErrWrap atp) ts v r I E) as Q. destruct v as [e|? ?]; cbn [post lvl lead] in *; auto.
-    destruct Q as (? & ? & ? & ?). repeat split; auto; lia. }
+  { intros E. pose proof (HI (SErrWrap atp) ts v r I E) as Q. destruct v as [e|? ?]; cbn [post lvl lead] in *; auto;
+    destruct Q as (? & ? & ? & ?); repeat split; auto; lia. }
   destruct ts as [|[s|k s|z] ts]; auto.
   destruct (is_unop z || Z.eqb z xgo_ARROW) eqn:EU.
   - destruct (rec (SUnary false) ts) as [[x|? ?] r'| | |] eqn:E; try discriminate.
@@ -386,7 +384,7 @@ Proof.
     destruct v as [e|? ?]; cbn [post lvl lead] in *; [|contradiction]. exact Q. }
   destruct (Z.eqb z xgo_LBRACE) eqn:E4; try discriminate.
   destruct (Z.eqb z xgo_NOT || Z.eqb z xgo_QUESTION) eqn:E5; eauto.
-  eapply (Next (EEw z x)); [apply shp_ew; auto|cbn [tlev]; lia|reflexivity|exact H].
+  eapply (Next (EEw z x)); [apply shp_ew; auto|cbn [tlev]; lia|cbn [starts_lp]; now rewrite P8|exact H].
 Qed.
 
 Lemma inv_args fn acc ts v r : pre (SArgs fn acc) ts -> step rec (SArgs fn acc) ts = ROk v r -> post (SArgs fn acc) ts v r.
@@ -546,15 +544,15 @@ Proof.
   induction n as [|n IH]; intros e Hs N. { destruct e; cbn [sz] in Hs; lia. }
   destruct e; cbn [sz] in Hs; cbn [noaddw] in N; bsplit; try reflexivity; cbn [dedup].
   - rewrite norm_un, nat_tight, IH by (auto; lia). reflexivity.
-  - change (norm (EStar e)) with (EStar (norm e)). rewrite IH by (auto; lia). reflexivity.
+  - rewrite norm_star, nat_tight, IH by (auto; lia). reflexivity.
   - rewrite norm_bin, !nat_tight, !IH by (auto; lia). reflexivity.
   - rewrite norm_par. destruct e; rewrite IH by (auto; cbn [sz] in *; lia); reflexivity.
   - rewrite norm_call, nat_tight, IH by (auto; lia). f_equal. apply map_ext_in. intros a Ha.
     apply IH; [pose proof (In_szl a args Ha); unfold szl in *; lia|]. eapply forallb_In; eauto.
   - rewrite norm_idx, nat_tight, !IH by (auto; lia). reflexivity.
   - rewrite norm_sel, nat_tight, IH by (auto; lia). reflexivity.
-  - change (norm (EEw t e)) with (EEw t (norm e)). rewrite IH by (auto; lia). reflexivity.
-  - change (norm (EEwd t e1 e2)) with (EEwd t (norm e1) (norm e2)). rewrite !IH by (auto; lia). reflexivity.
+  - rewrite norm_ew, nat_tight, IH by (auto; lia). reflexivity.
+  - rewrite norm_ewd, !nat_tight, !IH by (auto; lia). reflexivity.
   - change (norm (ELam lhs lp rhs rp)) with (ELam lhs lp (map norm rhs) rp). f_equal. apply map_ext_in. intros a Ha.
     apply IH; [pose proof (In_szl a rhs Ha); unfold szl in *; lia|]. eapply forallb_In; eauto.
 Qed.
